@@ -314,6 +314,18 @@ def _concrete_validation(env, cfg):
             ok = ok and (v == exp or abs(v - exp) < 1e-12) and repr(metric.get()) == before
         env.claim('pure_and_signed_on_real_class', ok, detail=name)
         n_ok += ok
+    # NumPy-typed predictions beyond 2^53 must reach the metric unchanged (no rounding through binary64)
+    import numpy as np
+    big = 2 ** 53 + 1
+    for name, y, p in (('MAE', np.int64(big), np.int64(big + 1)), ('MSE', np.int64(big), np.int64(big + 1)),
+                       ('Accuracy', np.int64(big), np.int64(big)), ('Accuracy', np.int64(big), np.int64(big + 1))):
+        metric = getattr(rm, name)()
+        loss = validate_loss_function(metric)
+        v = loss(y, {'output': p})
+        f2 = getattr(rm, name)()
+        f2.update(y_true=y, y_pred=p)
+        exp = f2.get() * (-1 if metric.bigger_is_better else 1)
+        env.claim('typed_extreme_values_reach_the_metric_unchanged', v == exp, detail=f"{name}: loss {v} vs fresh metric {exp} for 64-bit integers above 2^53")
     env.notes['accepted_metric_classes'] = names
     env.claim('accepted_classes_found', len(names) >= 30)
 
